@@ -23,9 +23,6 @@ var _ tree = (*treePipeline)(nil)
 
 func newTreePipeline(cfg *config) tree {
 	growerFactory := func(lastNodeFormat, intermedialNodeFormat branchFormat, dryrun bool, encode encode) growerPipeline {
-		if encode != encodeDefault {
-			return newNopGrowerPipeline()
-		}
 		return newGrowerPipeline(lastNodeFormat, intermedialNodeFormat, dryrun)
 	}
 
@@ -72,13 +69,23 @@ func newTreePipeline(cfg *config) tree {
 	}
 }
 
+// outputGrower returns the grower for output: JSON/YAML/TOML need no branches, so nothing is grown
+// for them. Every other operation (mkdir, verify, walk) needs the branches and paths whatever
+// encode option was passed.
+func (t *treePipeline) outputGrower(cfg *config) growerPipeline {
+	if cfg.encode != encodeDefault {
+		return newNopGrowerPipeline()
+	}
+	return t.grower
+}
+
 func (t *treePipeline) output(w io.Writer, r io.Reader, cfg *config) error {
 	ctx, cancel := context.WithCancel(cfg.ctx)
 	defer cancel()
 
 	splitStream, errcsl := split(ctx, r)
 	rootStream, errcr := newRootGeneratorPipeline().generate(ctx, splitStream)
-	growStream, errcg := t.grower.grow(ctx, rootStream)
+	growStream, errcg := t.outputGrower(cfg).grow(ctx, rootStream)
 	errcs := t.spreader.spread(ctx, w, growStream)
 	return t.handlePipelineErr(ctx, errcsl, errcr, errcg, errcs)
 }
@@ -96,7 +103,7 @@ func (t *treePipeline) outputProgrammably(w io.Writer, root *Node, cfg *config) 
 		case <-ctx.Done():
 		}
 	}()
-	growStream, errcg := t.grower.grow(ctx, rootStream)
+	growStream, errcg := t.outputGrower(cfg).grow(ctx, rootStream)
 	errcs := t.spreader.spread(ctx, w, growStream)
 	return t.handlePipelineErr(ctx, errcg, errcs)
 }
